@@ -6,6 +6,7 @@ import (
 	"os"
 	"sort"
 	"strconv"
+	"time"
 
 	"verif/mon"
 	"verif/work"
@@ -54,6 +55,16 @@ func main() {
 			os.Exit(2)
 		}
 		c.W = w
+		// harness watchdog: a check that does not finish is inconclusive, never a verdict
+		limit := 20 * time.Minute
+		if *tier == "thorough" {
+			limit = 5 * time.Hour
+		}
+		time.AfterFunc(limit, func() {
+			fmt.Printf("INCONCLUSIVE property=%s reason=harness watchdog: the check did not finish within %s\n", *prop, limit)
+			w.Close()
+			os.Exit(2)
+		})
 		code := func() int {
 			defer w.Close()
 			if err := w.Build(); err != nil {
